@@ -126,7 +126,9 @@ def get_ranges(headervalue, content_length):
                 # did not exist. (Normally, this means return a 200
                 # response containing the full entity)."
                 return None
-            result.append((start, stop + 1))
+            # A last-byte-pos at or beyond the end of the entity means
+            # "up to the end" (rfc 7233 sec 2.1); report what can be sent.
+            result.append((start, min(stop + 1, content_length)))
         else:
             if not stop:
                 # See rfc quote above.
@@ -136,10 +138,12 @@ def get_ranges(headervalue, content_length):
             # RFC 2616 Section 14.35.1:
             #   If the entity is shorter than the specified suffix-length,
             #   the entire entity-body is used.
-            if int(stop) > content_length:
-                result.append((0, content_length))
-            else:
-                result.append((content_length - int(stop), content_length))
+            suffix = min(int(stop), content_length)
+            if suffix == 0:
+                # "-0", or any suffix of an empty entity, selects no
+                # byte at all: this spec is not satisfiable.
+                continue
+            result.append((content_length - suffix, content_length))
 
     return result
 
